@@ -224,47 +224,8 @@ def run(R, tier):
         R.check(not why, "R05.8", "%s::response_unit" % who, "the result of every write is examined and a failure is returned to exec (so the handler does not run)", "; ".join(why[:3]), where=b.span)
     R.count("response_unit_failing_paths", n_fail)
 
-    # ---- R05.9 response-data writers return the failure of any write they make --------------------------------------------
-    em = E.engine()
-    EC = "scpi::error::ErrorCode"
-    by_name = {v: d for d, v in (em.enum_tables.get(EC) or {}).items()}
-
-    def reps(self_ty):
-        s = self_ty or ""
-        if s == "&'a [u8]":
-            return [("text", E.sl(b'a"b'))]
-        if s.endswith("error::Error"):
-            if "DeviceSpecificError" not in by_name:
-                raise facts.AnchorLost("ErrorCode::DeviceSpecificError")
-            cv = EnumV(EC, "DeviceSpecificError", by_name["DeviceSpecificError"], {})
-            return [("plain", AggV("scpi::error::Error", {0: cv, 1: fdai.mk_option(None)})), ("extended", AggV("scpi::error::Error", {0: cv, 1: fdai.mk_option(E.sl(b"x"))}))]
-        if s.startswith(("alloc::vec::Vec<", "arrayvec::ArrayVec<")):
-            return [("n=%d" % n, fdai.ListV([Cell(SymV("el%d" % i, "el%d" % i), "el%d" % i) for i in range(n)])) for n in (1, 2, 3)]
-        return [("any", TOP)]
-
-    em_enum = E.engine({"scpi::option::ScpiEnum::mnemonic": (lambda eng_, st, fr, t, name, rname, args: M._mkslice(b"CHannel12"))})
-    n_w = 0
-    for unit in P.units:
-        for b in unit.bodies:
-            if b.name != "format_response_data" or "ResponseData" not in (b.impl_trait or ""):
-                continue
-            n_w += 1
-            why = []
-            eng_w = em
-            if (b.impl_self or "") == "T":
-                # the blanket writer of ScpiEnum types: an enum whose mnemonic is a representative constant
-                eng_w = em_enum
-            for label, val in reps(b.impl_self):
-                try:
-                    res = eng_w.run(b, [RefV(Cell(val, "self")), RefV(Cell(TOP, "fmt"), (), True)])
-                    why += ["%s: %s" % (label, w) for w in E.check_write_discipline(res)]
-                except (fdai.TooManyPaths, RecursionError) as e:
-                    why.append("%s: undecided (%s)" % (label, type(e).__name__))
-            key = (b.impl_self or "?").split("<(dyn")[0]
-            if "uom::si::Quantity" in key:
-                key = "Quantity#%s" % (b.span or "").split(":")[0].split("/")[-1]
-            R.check(not why, "R05.9", "writer:%s:%s" % (unit.crate, key), "every write's result is examined or returned: a buffer failure inside the writer reaches the handler as its error", "; ".join(why[:3]), where=b.span)
-    R.floor("R05.9", "ResponseData writers", n_w, 45)
+    # ---- R05.9 response-data writers return the failure of any write they make (emit.check_all_writers) ------------------
+    E.check_all_writers(R, "R05.9", P)
 
 
 def _site(b, c):
